@@ -141,7 +141,7 @@ def run_part(ctx):
     ctx.sharded(shard, nshards=len(hs), deadline=ctx.sub_deadline(0.5))
     ex = ctx.total.counters.get("executions", 0) - before
     ctx.cov["e3_newthread_handover"] = {
-        "schedules_explored": ex,
+        "schedules_explored": ex, "coarse_executions": ctx.total.counters.get("coarse_executions", 0),
         "schedule_points": ctx.total.counters.get("schedule_points", 0),
         "PB": PB_of(ctx.tier),
         "harnesses": [h.name for h in hs],
